@@ -23,6 +23,7 @@ Decided (structural; the global state machine over histories is NOT decided):
     constant true - a later event can never clear it, so a drained connection is always closed with a reset.
  X4 buffer return: every received packet, whatever the handler's outcome, returns its buffer (C19.Q1 on the receive
     queue's poll).
+ X9 the receive buffer is empty exactly when no bytes are buffered (= C17.V6).
  X8 lookups that return (index, connection) enumerate the table's own iterator (the index is the position callers remove at).
 """
 import json
@@ -496,6 +497,10 @@ def run(F, R):
     x7_shutdown_flag(F, R)
     x10_event_decoding(F, R)
     x8_index_is_position(F, R)
+    # X9: a peer shutdown / reset is completed at once only when nothing is buffered: the receive buffer's emptiness test is true
+    # exactly when no bytes are buffered - a full buffer is not empty (C17.V6)
+    from .C17 import v6b_is_empty
+    guard(R, 'X9', 'is-empty', lambda: v6b_is_empty(F, RuleProxy(R, {'V6': 'X9'})))
     M = model(F)
     M.require_rings()
     roles = C05.classify_api(C05.queue_api(F, M))
